@@ -45,6 +45,8 @@ var c12Kinds = []string{
 	// virtual channel funding / settlement proposals
 	"vfund:ok-shape", "vfund:state-3parts", "vfund:indexmap-short", "vfund:indexmap-entry", "vfund:sigs-nil", "vfund:not-virtual", "vfund:state-other-id", "vfund:unknown-channel", "vfund:assets-mismatch", "vfund:twice",
 	"vfund:locked-drop-all", "vfund:locked-drop-first", "vfund:locked-swap", "vfund:locked-dup",
+	// the embedded state has fewer balance columns than the channel has participants, one signature per participant
+	"vfund:state-1part", "vsettle:state-1part",
 	"vsettle:locked-drop-all", "vsettle:locked-drop-first", "vsettle:locked-swap",
 	"vsettle:unknown-virtual", "vsettle:state-3parts", "vsettle:sigs-nil", "vsettle:other-id", "vsettle:twice",
 	// sync
@@ -557,10 +559,13 @@ func (a *c12adv) build(kind string, r *kernel.Rand, from map[wallet.BackendID]wi
 		return &client.ChannelUpdateRejMsg{ChannelID: hch.ID(), Version: cur.Version + 1, Reason: "no"}
 	// ---- virtual channel funding ---------------------------------------------------------
 	case "vfund:ok-shape", "vfund:state-3parts", "vfund:indexmap-short", "vfund:indexmap-entry", "vfund:sigs-nil", "vfund:not-virtual", "vfund:state-other-id", "vfund:unknown-channel", "vfund:assets-mismatch", "vfund:twice",
-		"vfund:locked-drop-all", "vfund:locked-drop-first", "vfund:locked-swap", "vfund:locked-dup":
+		"vfund:locked-drop-all", "vfund:locked-drop-first", "vfund:locked-swap", "vfund:locked-dup", "vfund:state-1part":
 		parts := 2
 		if kind == "vfund:state-3parts" {
 			parts = 3
+		}
+		if kind == "vfund:state-1part" {
+			parts = 1
 		}
 		vp := vParams(2)
 		vs := vState(vp, parts)
@@ -592,6 +597,9 @@ func (a *c12adv) build(kind string, r *kernel.Rand, from map[wallet.BackendID]wi
 		if kind == "vfund:unknown-channel" {
 			st.ID = gen.SubID(r.Uint64())
 		}
+		if kind == "vfund:state-1part" {
+			parts = 2 // one signature per participant of the parameters
+		}
 		sigs := make([]wallet.Sig, parts)
 		if kind != "vfund:sigs-nil" {
 			accs := gen.Pool(6)
@@ -604,10 +612,13 @@ func (a *c12adv) build(kind string, r *kernel.Rand, from map[wallet.BackendID]wi
 			Initial:          channel.SignedState{Params: vp, State: vs, Sigs: sigs}, IndexMap: imap}
 	// ---- virtual channel settlement ---------------------------------------------------------
 	case "vsettle:unknown-virtual", "vsettle:state-3parts", "vsettle:sigs-nil", "vsettle:other-id", "vsettle:twice",
-		"vsettle:locked-drop-all", "vsettle:locked-drop-first", "vsettle:locked-swap":
+		"vsettle:locked-drop-all", "vsettle:locked-drop-first", "vsettle:locked-swap", "vsettle:state-1part":
 		parts := 2
 		if kind == "vsettle:state-3parts" {
 			parts = 3
+		}
+		if kind == "vsettle:state-1part" {
+			parts = 1
 		}
 		vp := vParams(2)
 		vs := vState(vp, parts)
@@ -637,6 +648,9 @@ func (a *c12adv) build(kind string, r *kernel.Rand, from map[wallet.BackendID]wi
 			cur = st
 			mutLocked(st, m)
 			cur = curSaved
+		}
+		if kind == "vsettle:state-1part" {
+			parts = 2
 		}
 		sigs := make([]wallet.Sig, parts)
 		if kind != "vsettle:sigs-nil" {
